@@ -3,11 +3,13 @@ package props
 import (
 	"encoding/json"
 	"fmt"
+	"os"
 	"testing"
 	"time"
 
 	"github.com/zmap/zcrypto/tls"
 	"verifsim/kit"
+	"verifsim/vsync"
 )
 
 // C32: a real zcrypto endpoint against (a) a real peer behind a corrupting
@@ -26,6 +28,207 @@ type byteFault struct {
 	Seed  int    `json:"seed"`
 }
 
+// hsTrunc shortens (or pads) the body of the n-th clear-text handshake message of one direction and fixes
+// the handshake-header and record lengths, so that the message is well-framed but its content ends early.
+type hsTrunc struct {
+	Dir  int `json:"dir"`
+	Msg  int `json:"msg"`  // index among the clear-text handshake records of that direction
+	Keep int `json:"keep"` // < 100: selects a field boundary of the message; >= 100: selects an arbitrary body length
+	Delta int `json:"delta"` // bytes kept beyond (or short of) the boundary
+	Pad  int `json:"pad"`  // bytes appended instead (when > 0)
+}
+
+type hsTruncFilter struct {
+	plan  []hsTrunc
+	buf   []byte
+	idx   int
+	done  bool
+	Fired int
+}
+
+func (f *hsTruncFilter) Write(p []byte) ([]byte, int) {
+	if f.done {
+		return p, kit.CutNone
+	}
+	f.buf = append(f.buf, p...)
+	var out []byte
+	for len(f.buf) >= 5 {
+		n := int(f.buf[3])<<8 | int(f.buf[4])
+		if len(f.buf) < 5+n {
+			break
+		}
+		rec := append([]byte(nil), f.buf[:5+n]...)
+		f.buf = f.buf[5+n:]
+		if rec[0] != recHandshake {
+			f.done = true // ChangeCipherSpec / protected records follow: nothing more in the clear
+			out = append(out, rec...)
+			out = append(out, f.buf...)
+			f.buf = nil
+			break
+		}
+		i := f.idx
+		f.idx++
+		for _, t := range f.plan {
+			if t.Msg != i || n < 4 {
+				continue
+			}
+			l := int(rec[6])<<16 | int(rec[7])<<8 | int(rec[8])
+			if l != n-4 {
+				continue // several messages or a fragment in this record: leave it alone
+			}
+			body := rec[9:]
+			var nb []byte
+			if t.Pad > 0 {
+				nb = append(append([]byte(nil), body...), make([]byte, t.Pad)...)
+			} else {
+				var k int
+				if t.Keep >= 100 {
+					k = t.Keep % (len(body) + 1)
+				} else {
+					// cut at (or just after / before) a field boundary of the message
+					bs := fieldBoundaries(rec[5], body)
+					k = bs[t.Keep%len(bs)] + t.Delta
+				}
+				if k < 0 {
+					k = 0
+				}
+				if k >= len(body) {
+					continue
+				}
+				nb = body[:k]
+			}
+			hdr := []byte{rec[0], rec[1], rec[2], byte((len(nb) + 4) >> 8), byte(len(nb) + 4), rec[5], byte(len(nb) >> 16), byte(len(nb) >> 8), byte(len(nb))}
+			rec = append(hdr, nb...)
+			f.Fired++
+		}
+		out = append(out, rec...)
+	}
+	return out, kit.CutNone
+}
+func (f *hsTruncFilter) Closed() []byte { b := f.buf; f.buf = nil; return b }
+
+// fieldBoundaries lists the offsets in a handshake message body at which a field starts or ends, by the
+// message formats of RFC 5246 / 4492 / 8446 (every plausible reading is included where the format depends on the
+// negotiated parameters, which a middlebox cannot know).
+func fieldBoundaries(typ byte, b []byte) []int {
+	set := map[int]bool{0: true, len(b): true}
+	add := func(p int) bool {
+		if p < 0 || p > len(b) {
+			return false
+		}
+		set[p] = true
+		return true
+	}
+	vec := func(p, w int) int { // returns the end of a w-byte-length-prefixed vector starting at p (or -1)
+		if p < 0 || p+w > len(b) {
+			return -1
+		}
+		l := 0
+		for i := 0; i < w; i++ {
+			l = l<<8 | int(b[p+i])
+		}
+		add(p + w)
+		if !add(p + w + l) {
+			return -1
+		}
+		return p + w + l
+	}
+	exts := func(p int) {
+		end := vec(p, 2)
+		if end < 0 {
+			return
+		}
+		q := p + 2
+		for q >= 0 && q+4 <= end {
+			add(q)
+			add(q + 2)
+			q = vec(q+2, 2)
+		}
+	}
+	switch typ {
+	case 1: // ClientHello
+		add(2)
+		add(34)
+		p := vec(34, 1)
+		p = vec(p, 2)
+		p = vec(p, 1)
+		exts(p)
+	case 2: // ServerHello
+		add(2)
+		add(34)
+		p := vec(34, 1)
+		if p >= 0 {
+			add(p + 2)
+			add(p + 3)
+			exts(p + 3)
+		}
+	case 4: // NewSessionTicket
+		add(4)
+		vec(4, 2)
+	case 11: // Certificate
+		end := vec(0, 3)
+		q := 3
+		for q >= 0 && end >= 0 && q+3 <= end {
+			q = vec(q, 3)
+		}
+	case 12: // ServerKeyExchange: ECDHE and DHE readings, with and without SignatureAndHashAlgorithm
+		add(1)
+		add(3)
+		if p := vec(3, 1); p >= 0 {
+			add(p + 2)
+			vec(p, 2)
+			vec(p+2, 2)
+		}
+		p := vec(0, 2)
+		p = vec(p, 2)
+		p = vec(p, 2)
+		if p >= 0 {
+			add(p + 2)
+			vec(p, 2)
+			vec(p+2, 2)
+		}
+	case 13: // CertificateRequest
+		p := vec(0, 1)
+		if q := vec(p, 2); q >= 0 {
+			vec(q, 2)
+		}
+	case 15: // CertificateVerify
+		add(2)
+		vec(0, 2)
+		vec(2, 2)
+	case 16: // ClientKeyExchange
+		vec(0, 1)
+		vec(0, 2)
+	case 22: // CertificateStatus
+		add(1)
+		vec(1, 3)
+	}
+	var out []int
+	for p := 0; p <= len(b); p++ {
+		if set[p] {
+			out = append(out, p)
+		}
+	}
+	return out
+}
+
+// chainFilter applies a, then b.
+type chainFilter struct{ a, b kit.Filter }
+
+func (c chainFilter) Write(p []byte) ([]byte, int) {
+	x, cut := c.a.Write(p)
+	y, cut2 := c.b.Write(x)
+	if cut2 != kit.CutNone {
+		cut = cut2
+	}
+	return y, cut
+}
+func (c chainFilter) Closed() []byte {
+	x := c.a.Closed()
+	y, _ := c.b.Write(x)
+	return append(y, c.b.Closed()...)
+}
+
 type c32Scenario struct {
 	Seed       uint64      `json:"seed"`
 	Client     EndCfg      `json:"client"`
@@ -42,6 +245,9 @@ type c32Scenario struct {
 	KillAtMs   int         `json:"kill_at_ms"`            // the harness closes the transport at this simulated time (0 = never)
 	CertsOnly  bool        `json:"certs_only,omitempty"`
 	Fingerprint bool       `json:"fingerprint,omitempty"` // the client sends a ClientFingerprintConfiguration hello
+	KeyUpdateBy int        `json:"key_update_by,omitempty"` // TLS 1.3, corrupt mode: 1 = client, 2 = server sends KeyUpdate(update_requested) after its first write and drops the transport
+	EPipe      bool        `json:"epipe,omitempty"`         // transports fail writes as soon as the peer has closed (net.Pipe semantics)
+	HSTrunc    []hsTrunc   `json:"hs_trunc,omitempty"`      // structure-aware faults: a clear-text handshake message re-framed with a consistent, shorter length
 	Skip       bool        `json:"skip_verify,omitempty"`
 	Tape       []int       `json:"tape,omitempty"`
 }
@@ -60,6 +266,7 @@ func genC32(seed uint64, tier string) any {
 	sc.Fingerprint = r.Chance(1, 7)
 	sc.Skip = r.Chance(1, 4)
 	sc.Deadline = r.Chance(3, 4)
+	sc.EPipe = r.Chance(1, 3)
 	sc.KillAtMs = []int{0, 1, 20, 200, 2000, 30000}[r.Intn(6)]
 	if !sc.Deadline && sc.KillAtMs == 0 {
 		sc.KillAtMs = 5000 // without deadlines only a closed transport guarantees that calls return
@@ -69,6 +276,28 @@ func genC32(seed uint64, tier string) any {
 		n := r.Pick([]int{0, 6, 2, 1})
 		if n == 0 {
 			n = 1
+		}
+		if r.Chance(1, 3) {
+			if r.Bool() {
+				n = 0
+			}
+			for k := r.Pick([]int{0, 5, 2}); k > 0; k-- {
+				t := hsTrunc{Dir: r.Pick([]int{1, 2}), Msg: r.Pick([]int{4, 3, 6, 2, 1, 1}), Keep: r.Intn(64), Delta: []int{0, 1, 2, 3, -1}[r.Pick([]int{4, 4, 2, 1, 2})]}
+				if r.Chance(1, 5) {
+					t.Keep = 100 + r.Intn(1<<12)
+				}
+				if r.Chance(1, 6) {
+					t.Pad = 1 + r.Intn(40)
+				}
+				sc.HSTrunc = append(sc.HSTrunc, t)
+			}
+		}
+		if r.Chance(1, 8) {
+			sc.KeyUpdateBy = 1 + r.Intn(2)
+			sc.EPipe = r.Chance(3, 4)
+			if r.Chance(2, 3) {
+				n = 0
+			}
 		}
 		kinds := []string{"flip", "flip", "flip", "trunc", "insert", "dup"}
 		for i := 0; i < n; i++ {
@@ -186,6 +415,8 @@ func boundaries(stream []byte) []int {
 }
 
 type c32End struct {
+	keyUpdate bool // after its first write this endpoint sends KeyUpdate(update_requested) and drops the transport (TLS 1.3)
+	sentKeyUpdate bool
 	conn   *tls.Conn
 	net    *kit.Conn
 	hsErr  error
@@ -208,9 +439,18 @@ func driveEndpoint(s *kit.Sim, e *c32End, isClient bool, deadline bool) {
 	e.calls++
 	if e.hsErr == nil {
 		buf := make([]byte, 512)
+		ku := func() {
+			if e.keyUpdate && c.ConnectionState().Version == vTLS13 {
+				// a peer that asks for a key update and disappears: the reply cannot be written
+				c.WriteRecord(22, []byte{24, 0, 0, 1, 1})
+				e.net.Kill(false)
+				e.sentKeyUpdate = true
+			}
+		}
 		if isClient {
 			c.Write([]byte("GET / HTTP/1.0\r\n\r\n"))
 			e.calls++
+			ku()
 			c.Read(buf)
 			e.calls++
 		} else {
@@ -218,6 +458,7 @@ func driveEndpoint(s *kit.Sim, e *c32End, isClient bool, deadline bool) {
 			e.calls++
 			c.Write([]byte("HTTP/1.0 200 OK\r\n\r\nhello"))
 			e.calls++
+			ku()
 		}
 		c.Read(buf)
 		e.calls++
@@ -282,6 +523,9 @@ func c32Configs(sc *c32Scenario, run *simRun) (*tls.Config, *tls.Config) {
 func genuineStreams(sc *c32Scenario) (c2s, s2c []byte) {
 	run := newSimRun(sc.Seed, nil, false)
 	s := run.S
+	vsync.Sched = simSched{s}
+	vsync.Mode = vsync.ModeLockstep
+	defer func() { vsync.Mode = vsync.ModeReal; vsync.Sched = nil }()
 	ccfg, scfg := c32Configs(sc, run)
 	cn, sn := s.Pipe("c", "s", sc.Net.params(), sc.Net.params())
 	ce := &c32End{conn: tls.Client(cn, ccfg), net: cn}
@@ -361,11 +605,19 @@ func execC32(t *testing.T, scAny any, keepLog bool) *Outcome {
 		}
 		run := newSimRun(sc.Seed, sc.Tape, keepLog)
 		s := run.S
+		// package tls is built with the lock shim: a lock that is never released shows up as a blocked task
+		vsync.Sched = simSched{s}
+		vsync.Mode = vsync.ModeLockstep
+		vsync.LockOps = 0
+		defer func() { vsync.Mode = vsync.ModeReal; vsync.Sched = nil }()
+		okHSPossible := true
 		ccfg, scfg := c32Configs(sc, run)
 		cn, sn := s.Pipe("c", "s", sc.Net.params(), sc.Net.params())
+		cn.EPipe, sn.EPipe = sc.EPipe, sc.EPipe
 		var ends []*c32End
 		fired := 0
 		var filters [2]*byteFilter
+		var hsFilters [2]*hsTruncFilter
 		if sc.Mode == "corrupt" {
 			streams := [2][]byte{gc2s, gs2c}
 			for d := 0; d < 2; d++ {
@@ -388,10 +640,20 @@ func execC32(t *testing.T, scAny any, keepLog bool) *Outcome {
 				}
 				filters[d] = bf
 			}
-			cn.SetFilter(filters[0])
-			sn.SetFilter(filters[1])
-			ce := &c32End{conn: tls.Client(cn, ccfg), net: cn}
-			se := &c32End{conn: tls.Server(sn, scfg), net: sn}
+			var hsf [2]*hsTruncFilter
+			for d := 0; d < 2; d++ {
+				hsf[d] = &hsTruncFilter{}
+				for _, t := range sc.HSTrunc {
+					if t.Dir == d {
+						hsf[d].plan = append(hsf[d].plan, t)
+					}
+				}
+			}
+			hsFilters = hsf
+			cn.SetFilter(chainFilter{hsf[0], filters[0]})
+			sn.SetFilter(chainFilter{hsf[1], filters[1]})
+			ce := &c32End{conn: tls.Client(cn, ccfg), net: cn, keyUpdate: sc.KeyUpdateBy == 1}
+			se := &c32End{conn: tls.Server(sn, scfg), net: sn, keyUpdate: sc.KeyUpdateBy == 2}
 			ends = []*c32End{ce, se}
 			s.Go("client", func() { driveEndpoint(s, ce, true, sc.Deadline) })
 			s.Go("server", func() { driveEndpoint(s, se, false, sc.Deadline) })
@@ -448,6 +710,14 @@ func execC32(t *testing.T, scAny any, keepLog bool) *Outcome {
 					fired++
 				}
 			}
+			if hsFilters[d] != nil && hsFilters[d].Fired > 0 {
+				o.count("fault.handshake_message_reframed", hsFilters[d].Fired)
+				fired += hsFilters[d].Fired
+			}
+		}
+		if vsync.LockOps == 0 && okHSPossible {
+			fmt.Println("HARNESS-ERROR C32 needs the sync shim overlay (bin/check builds it): a leaked lock could not be detected otherwise")
+			os.Exit(2)
 		}
 		for _, p := range s.Panics() {
 			o.Fail = Failf("c32.panic", panicSite(p.Stack), "task %s panicked: %v\n%s", p.Name, p.PanicVal, p.Stack)
@@ -460,6 +730,9 @@ func execC32(t *testing.T, scAny any, keepLog bool) *Outcome {
 		}
 		okHS := 0
 		for _, e := range ends {
+			if e.sentKeyUpdate {
+				o.count("fault.key_update_then_transport_closed", 1)
+			}
 			if e.hsErr == nil {
 				okHS++
 			}
@@ -583,7 +856,7 @@ func init() {
 		Real:   []string{"tls.Client and tls.Server: Handshake, Read, Write, ConnectionState, GetHandshakeLog + JSON marshal, OCSPResponse, VerifyHostname, CloseWrite, Close on partial and failed handshakes"},
 		Stub:   []string{"transport", "clock", "entropy", "stub peer in stub mode"},
 		Assume: []string{"a call that returns because its deadline expired has returned"},
-		FaultKinds: []string{"fault.byte_flip", "fault.byte_trunc", "fault.byte_insert", "fault.byte_dup", "fault.stub_kind_0", "fault.stub_kind_1", "fault.stub_kind_2", "fault.stub_kind_3", "fault.stub_stall", "fault.transport_killed",
+		FaultKinds: []string{"fault.byte_flip", "fault.byte_trunc", "fault.byte_insert", "fault.byte_dup", "fault.stub_kind_0", "fault.stub_kind_1", "fault.stub_kind_2", "fault.stub_kind_3", "fault.stub_stall", "fault.transport_killed", "fault.handshake_message_reframed", "fault.key_update_then_transport_closed",
 			"net.read_deadline_expired", "probe.partial_log_marshalled", "probe.handshakes_ok_0", "probe.handshakes_ok_1", "probe.handshakes_ok_2"},
 		NotInjected: "no storage or crash-restart; allocation failure has no seam in Go",
 		Gen:         genC32, New: func() any { return &c32Scenario{} }, Exec: execC32, Shrink: shrinkC32,
